@@ -36,7 +36,13 @@ FnCases(j, a, d) == << Rec("fn", "mul", BMulMod(d, RInv(NN), NN), a),
                        Rec("fn", "mul", a, BMulMod(d, Inv(a, NN), NN)) >>
 RECURSIVE Cat(_, _)
 Cat(seqs, i) == IF i > Len(seqs) THEN <<>> ELSE seqs[i] \o Cat(seqs, i + 1)
-Cases(j) == Cat([q \in 1..Len(Deltas(j)) |-> FpCases(j, Aof(j, PP), Deltas(j)[q]) \o FnCases(j, Aof(j, NN), Deltas(j)[q])], 1)
+\* results that equal the modulus except in ONE 64-bit limb (m - 2^64, m - 2^128, m - 2^192): a final comparison with the modulus that skips
+\* or mis-orders a limb decides them wrongly; and the same values as operands of additions (kind "add": a + b = m - 2^(64 i))
+LimbBelow(m, i) == BSub(m, BFromBE(<<1>> \o [q \in 1..(8 * i) |-> 0]))
+LimbCases(j) == Cat([i \in 1..3 |-> FpCases(j, Aof(j, PP), LimbBelow(PP, i)) \o FnCases(j, Aof(j, NN), LimbBelow(NN, i))
+                                   \o << Rec("fp", "add", BSub(LimbBelow(PP, i), <<5>>), <<5>>), Rec("fn", "add", BSub(LimbBelow(NN, i), <<5>>), <<5>>),
+                                         Rec("fp", "add", LimbBelow(PP, i), BFromBE(<<1>> \o [q \in 1..(8 * i) |-> 0])), Rec("fn", "add", LimbBelow(NN, i), BFromBE(<<1>> \o [q \in 1..(8 * i) |-> 0])) >>], 1)
+Cases(j) == (IF j = 1 THEN LimbCases(j) ELSE <<>>) \o Cat([q \in 1..Len(Deltas(j)) |-> FpCases(j, Aof(j, PP), Deltas(j)[q]) \o FnCases(j, Aof(j, NN), Deltas(j)[q])], 1)
 Init == pidx = 0 /\ pout = <<>>
 Next == pidx < NK /\ pidx' = pidx + 1 /\ pout' = Cases(pidx + 1)
 Emit == \A j \in 1..Len(pout) : PrintT(<<"PLAN", ToJson(pout[j])>>)
